@@ -73,3 +73,7 @@ package udp
 //@   at_call UnregisterTransportEndpoint requires nicID == old(e.regNICID) && id == old(e.id) && protocol == ProtocolNumber
 //@   at_call UnregisterTransportEndpoint requires arr(netProtos) == old(arr(e.effectiveNetProtos)) && off(netProtos) == old(off(e.effectiveNetProtos)) && len(netProtos) == old(len(e.effectiveNetProtos))
 //@   modifies everything()
+
+//@ func (*endpoint).HandleControlPacket props C07
+//@   requires e != nil && e.waiterQueue != nil
+//@   modifies e.rcvIcmp, e.rcvIcmpMsg
